@@ -4,7 +4,7 @@
    statements inside the whole program (one namespace dict threaded through all parts) is runtime behaviour and
    is checked on the implementation against a plain exec of the de-prompted source. *)
 From XD Require Import Model.Base Model.Parser Model.Checker Model.Text Model.Directive Model.RunLoop Model.Proc
-  Proofs.RunProofs Proofs.C01Proofs Proofs.ProcProofs Proofs.ChunkProofs Spec.Partition.
+  Proofs.RunProofs Proofs.C01Proofs Proofs.ProcProofs Proofs.ChunkProofs Spec.Partition Proofs.Reparse Proofs.SourceRun.
 
 (* the parts handed to exec form a strictly increasing sequence of positions: every part at most once, in
    source order, for every behaviour of the parts; likewise the skipped ones *)
@@ -53,3 +53,27 @@ Theorem C01_parts_partition_source : forall o raw_src raw_want lineno ps,
   concat (map exec_lines ps) = map (skipn 4) (dedent_chunk raw_src).
 Proof. exact package_chunk_exec_partition. Qed.
 Print Assumptions C01_parts_partition_source.
+
+(* while nothing fails, the parts handed to exec are exactly the parts that were not skipped (by a directive, or for holding
+   no code), each once and in source order -- for every behaviour of the parts and of the REQUIRES oracle *)
+Theorem C01_executed_are_the_unskipped : forall requires_met cfg oc ps,
+  let st := run_parts requires_met cfg oc (init_state cfg) 0 ps in
+  r_end st = E_running -> r_executed st = unskipped (r_skipped st) (length ps).
+Proof. exact executed_are_the_unskipped. Qed.
+Print Assumptions C01_executed_are_the_unskipped.
+(* end to end over the two models (parser and run loop): for a parsed docstring in which nothing is skipped and nothing
+   fails, the parts handed to exec are all the parts in order, and the lines they hold are the de-prompted source lines of
+   the docstring's chunks, each once, in order -- for every tokenizer / ast / directive oracle and every part behaviour *)
+Theorem C01_executed_is_source : forall requires_met cfg oc o s items,
+  parse o s = Parsed items ->
+  let ps := parts_of items in
+  let st := run_parts requires_met cfg oc (init_state cfg) 0 ps in
+  r_end st = E_running -> r_skipped st = [] ->
+  exists (ll : list (label * str)) gs,
+    length ll = length (splitlines (normalize_docstring s)) /\
+    Forall2 SameLineUpToHack ll (splitlines (normalize_docstring s)) /\
+    flatten_chunks gs = map snd ll /\
+    r_executed st = seq 0 (length ps) /\
+    concat (map exec_lines ps) = concat (map chunk_exec gs).
+Proof. exact executed_is_source. Qed.
+Print Assumptions C01_executed_is_source.
